@@ -198,6 +198,14 @@ reset
 @0 update | 5.2.0:T0
 @0 exit
 @0 re 2
+@0 enter
+@0 update | 5.0.0:S ; 5.1.0:S ; 5.2.0:S
+@0 update | 4.0.0:F ; 4.1.0:F ; 4.2.0:F
+@0 pc 0 1
+@0 exit
+@0 enter
+@0 succeed 0
+@0 update
 @0 load 0
 @0 load -1
 @0 update
@@ -226,6 +234,10 @@ def extra_c19(tier, seed):
         rows = pairwise_rows(rng)
         combos = [("".join(c for c, b in zip(SWITCHES, r) if b), "g++", "c++11") for r in rows] + [("A", "g++", "c++11"), ("AGV", "clang++", "c++17")]
         combos += [("PSH", "clang++", "c++11"), ("PSHG", "g++", "c++14"), ("PSHGV", "g++", "c++20"), ("", "clang++", "c++20")]
+        if len(combos) % 2:
+            combos.append(("G", "g++", "c++11"))
+        for f in ("P", "PS", "S", "H"):         # single features, each under automatic and manual activation (the index parity selects it)
+            combos += [(f, "g++", "c++11"), (f, "g++", "c++11")]
     else:
         allrows = list(itertools.product((0, 1), repeat=8))
         combos = []
